@@ -322,6 +322,9 @@ def check(ctx, res) -> None:
     # ---- R14.6 line tables split at '\\n' only
     line_table_rule(ctx, res, "R14.6")
     fstring_aware_bracket_rule(ctx, res, "R14.16")
+    from .common import identifier_char_rule
+
+    identifier_char_rule(ctx, res, "R14.17", ("rope.base.worder", "rope.base.simplify", "rope.base.codeanalyze"), rest=True)
 
     escape_parity_rule(ctx, res, "R14.5")
 
